@@ -27,7 +27,10 @@ def strata(tier):
                  'dumpk': 0, 'loadk': 0, 'awrite': 0, 'cache_get': 1, 'wrapped': 1},
         max_ops=30 if tier == 'quick' else 60, pool=(3, 7), tols=(None, None, 0, 1, -1), deeps=(False, True), ignores=IGNORES, float_pct=6,
         shapes=[{'req': ['x']}, {'req': ['x'], 'opt': [['y', ['i', 1]]]}, {'req': ['x', 'y']},
-                {'req': ['x'], 'opt': [['y', ['i', 1]]], 'varkw': True}, {'req': ['x'], 'varargs': True, 'varkw': True}])
+                {'req': ['x'], 'opt': [['y', ['i', 1]]], 'varkw': True}, {'req': ['x'], 'varargs': True, 'varkw': True},
+                # float defaults finer than the tolerance: key()/lookup() must treat a defaulted argument exactly as the call does
+                {'req': ['x'], 'opt': [['y', ['f', '0.125']]]}, {'req': ['x'], 'opt': [['y', ['f', '2.675']]], 'kwopt': [['s', ['f', '0.5']]]},
+                {'req': ['x'], 'opt': [['y', ['t', [['f', '0.25'], ['f', '0.75']]]]]}])
 
 
 INTRO = ('lookup', 'key', 'cache_get', 'wrapped')
